@@ -73,7 +73,7 @@ struct tctx {
   var* slots;
   struct { int kind, et; } ci[NCONT];
   long incs[NMUT], tryfail;
-  var tlsval[64]; int ntls;
+  var tlsval[2048]; int ntls;
   var argref;
   int njoin;
 };
@@ -382,7 +382,7 @@ static void do_op(struct tctx* c, struct op* o) {
     }
     case O_TS: {
       char kb[16]; snprintf(kb, sizeof kb, "k%ld", a[0]);
-      if (c->ntls >= 64) { break; }
+      if (c->ntls >= 2048) { harness_bug("too many thread-local stores in one workload"); }
       var v = new_raw(Int, $I(c->idx * 100000 + a[1]));
       c->tlsval[c->ntls++] = v;
       set(current(Thread), $S(kb), v);
@@ -590,7 +590,6 @@ int main(int argc, char** argv) {
         reset_case();
         cfgT = atoi(w[1]); cfg_main = atoi(w[2]); cfg_gcthr = atoi(w[3]); cfg_nmutex = atoi(w[4]); cfg_barrier = atoi(w[5]);
         if (cfgT < 1 or cfgT > MAXT or cfg_nmutex < 1 or cfg_nmutex > NMUT) { harness_bug("cfg"); }
-        if (cfg_main and cfg_gcthr) { harness_bug("cfg: collected Thread objects while main allocates"); }
       }
       else if (strcmp(w[0], "t") is 0 and n >= 2) { curt = atoi(w[1]); if (curt < 0 or curt >= cfgT) { harness_bug("t"); } }
       else if (strcmp(w[0], "o") is 0 and n >= 2) { if (curt < 0) { harness_bug("o before t"); } parse_op(&progs[curt], w, n); }
